@@ -206,6 +206,7 @@ def knobs(rng):
         p_quasi=rng.choice([0.1, 0.3]),
         max_stmts=rng.choice([6, 10]),
         const_sizes=rng.choice([0.2, 0.4]),
+        hostile_names=rng.random() < 0.4,
     )
 
 
